@@ -776,8 +776,15 @@ Hnextread(int32 access_id, uint16 tag, uint16 ref, int origin)
         int32 spec_aid;
 
         /* special element, call special function to handle */
-        if ((access_rec->special_func = HIget_function_table(access_rec)) == NULL)
+        if ((access_rec->special_func = HIget_function_table(access_rec)) == NULL) {
+            /* The special header could not be read.  The caller still owns
+             * this access record and will end the access: leave an ordinary
+             * element behind, not a special one without a function table. */
+            access_rec->special      = 0;
+            access_rec->special_info = NULL;
+            access_rec->posn         = 0;
             HGOTO_ERROR(DFE_INTERNAL, FAIL);
+        }
 
         /* decrement "attach" to the file_rec */
         HIunlock(file_rec);
